@@ -31,7 +31,7 @@ ASSUMPTIONS = ["token alphabets in mc/checks/c12.py cover every branch condition
                "logging is disabled (warnings are not part of the property)"]
 MANIFEST = {
     "category": "exploration",
-    "text": "Bounded exhaustive enumeration of docstrings as token sequences (length <= 3 over the full alphabet plus length-4 sequences that start with a section header in quick; <= 4 full / 5 header-led in thorough) for each of the Google, Numpy and Sphinx parsers, x 15 parents (three in a file-less module) x all option vectors with <= 1 (quick) / <= 2 (thorough) deviations; totality, section well-formedness, input immutability, and a structural offset-progress monitor on every section reader; family A: 41 annotation texts in every place a style reads an annotation.",
+    "text": "Bounded exhaustive enumeration of docstrings as token sequences (length <= 3 over the full alphabet plus length-4 sequences that start with a section header in quick; <= 4 full / 5 header-led in thorough) for each of the Google, Numpy and Sphinx parsers, x 15 parents (three in a file-less module) x all option vectors with <= 1 (quick) / <= 2 (thorough) deviations; totality, section well-formedness, input immutability, and a structural offset-progress monitor on every section reader; family A: 41 annotation texts in every place a style reads an annotation. Parents include a class in an inheritance cycle and a class hanging off one.",
     "note": "Complete over the token alphabet and length bound; arbitrary characters inside tokens are represented by the listed line shapes.",
     "technique": "model checking by exhaustive small-scope enumeration of token sequences on the real parsers with a progress monitor on every reader",
 }
